@@ -59,6 +59,20 @@ def shaped_entries(kvs):
     return all(NAME_RE.match(k) and shaped(v, False) for k, v in kvs)
 
 
+def py_positions(v, pre=()):
+    """positions of the scalar leaves of a plain value"""
+    out = []
+    if isinstance(v, dict):
+        for k, x in v.items():
+            out += py_positions(x, pre + (k,))
+    elif isinstance(v, list):
+        for n, x in enumerate(v):
+            out += py_positions(x, pre + (n,))
+    else:
+        out.append(list(pre))
+    return out
+
+
 def hard_numbers(rng, v, pool, top=True):
     """replace number leaves (and some text leaves) by numbers from the pool; the shape stays the same"""
     if isinstance(v, dict):
@@ -296,6 +310,13 @@ class C12(Prop):
             py = plain(ct)
             py = hard_numbers(rng, py, hard)
             out.append({"stream": "toxml_f", "tag": "numbers", "input": {"tree": py, "opts": self.r_opts(rng)}})
+            # the same object exported, changed in place (one leaf of a nested element), exported again with the same options:
+            # the second document is the document of the tree as it is now
+            leaves = [p for p in py_positions(py) if len(p) >= 2 and isinstance(p[-1], str)]
+            if leaves and rng.random() < 0.7:
+                lp = rng.choice(leaves)
+                out.append({"stream": "toxml_f", "tag": "re-export", "input": {"tree": py, "opts": self.r_opts(rng),
+                                                                               "pre": {"path": lp, "old": rng.choice(["old text", 0, None])}}})
         # ---- loading -------------------------------------------------------------------------
         for _ in range(250 if quick else 12000):
             k = rng.random()
@@ -417,7 +438,17 @@ class C12(Prop):
         i = case["input"]
         if case["stream"] == "toxml_f":
             o = i["opts"]
-            s = self.wrap_all(i["tree"]).to_xml(indent=o["indent"], encoding=o["encoding"], quote=o["quote"])
+            x = self.wrap_all(i["tree"])
+            if i.get("pre"):
+                path = i["pre"]["path"]
+                holder = x
+                for st in path[:-1]:
+                    holder = dict.__getitem__(holder, st) if isinstance(holder, dict) else list.__getitem__(holder, st)
+                new = dict.__getitem__(holder, path[-1])
+                dict.__setitem__(holder, path[-1], i["pre"]["old"])
+                x.to_xml(indent=o["indent"], encoding=o["encoding"], quote=o["quote"])       # first export (of the earlier content)
+                dict.__setitem__(holder, path[-1], new)                                       # changed in place
+            s = x.to_xml(indent=o["indent"], encoding=o["encoding"], quote=o["quote"])
             if not isinstance(s, str):
                 raise TypeError("to_xml returned %s" % type(s).__name__)
             ob = {"ok": ["s", s]}
